@@ -10,7 +10,7 @@ out = ["(* SNAPSHOT of the structure tables the hand-written model (Model/Trace.
        "   Gen.<table> = Tables.<table> are proved in Proofs/TableObligations.v on every run. *)",
        "From Coq Require Import ZArith List String.", "Import ListNotations.", "Open Scope string_scope.", ""]
 names = []
-for f in ("GenAst.v", "GenFrontend.v"):
+for f in ("GenAst.v", "GenFrontend.v", "GenSourceRef.v"):
     txt = open(os.path.join(here, "coq", "Gen", f)).read()
     for m in re.finditer(r"Definition (\w+) : ([^=]+?) :=\n?(.*?)\.\n\n", txt + "\n", re.S):
         names.append((f[:-2], m.group(1)))
@@ -18,7 +18,7 @@ for f in ("GenAst.v", "GenFrontend.v"):
 open(os.path.join(here, "coq", "Spec", "Tables.v"), "w").write("\n".join(out))
 ob = ["(* Table obligations: the code the hand-written model mirrors still has the shape the model was",
       "   written against (regenerated Gen/ tables = reviewed snapshot). *)",
-      "From Coq Require Import List String.", "From NadaV.Gen Require GenAst GenFrontend.", "From NadaV.Spec Require Tables.", ""]
+      "From Coq Require Import List String.", "From NadaV.Gen Require GenAst GenFrontend GenSourceRef.", "From NadaV.Spec Require Tables.", ""]
 for mod, n in names:
     ob.append(f"Lemma tbl_{n} : {mod}.{n} = Tables.{n}.  Proof. reflexivity. Qed.")
 open(os.path.join(here, "coq", "Proofs", "TableObligations.v"), "w").write("\n".join(ob) + "\n")
